@@ -217,7 +217,7 @@ def MacCtx.push (c : MacCtx) (cid : Nat) (payload : List Nat) : MacCtx :=
 /-- DataRate field of a LinkADRReq: 15 keeps the current rate, an undefined rate is refused -/
 def linkAdrDr (cfg : Config) (r : RegionId) (drRaw : Nat) : Option Nat :=
   if drRaw == 15 then some cfg.dataRate
-  else if (getDatarate r drRaw).isSome then some drRaw else none
+  else if isUplinkDatarate r drRaw then some drRaw else none
 
 /-- TXPower field: 15 keeps the current power, an undefined index is refused -/
 def linkAdrPw (cfg : Config) (r : RegionId) (pwRaw : Nat) : M (Option (Option Nat)) :=
